@@ -18,7 +18,8 @@ RULE = (
     "Hypothesis draws (i) real runner outputs: mixed structure functions / cross sections, PTO 0-3 with scale "
     "variations (1-21 order keys), TMC, empty kinematic lists, kinematics given as numpy scalars, or (ii) synthetic "
     "Output objects with arbitrary order keys, shapes and values (-0.0, subnormals, 1e+-300), None observables, nf "
-    "None/int; then a chain of 1-3 dump/load cycles over {tar, yaml}. Oracle: after every cycle the loaded object "
+    "None/int; then a chain of 1-3 dump/load cycles over {tar, yaml}; in half of the cases the tar file name has a past (a different output "
+    "was dumped to and loaded from the same path just before, and all tar cycles of the chain reuse it). Oracle: after every cycle the loaded object "
     "has identical keys, kinematics (x,Q2,y,nf), order-key list in the same order, bitwise identical values and "
     "errors, grid/degree/log/pids/projectile and cards, and bitwise identical apply_pdf predictions for a generated "
     "PDF. Non-trivial = at least one observable with >=1 point and >=2 order keys, or a chain of >=2 cycles."
@@ -32,7 +33,7 @@ ASSUMPTIONS = [
 BUDGET = {"quick": {"examples": 1600, "wall": 300}, "thorough": {"examples": 40000, "wall": 2400}}
 MANDATORY = {
     t: ["nontrivial", "source:real", "source:synthetic", "fmt:tar", "fmt:yaml", "chain:3", "xs", "empty-kinematics", "none-observable",
-        "numpy-kinematics", "special-values"]
+        "numpy-kinematics", "special-values", "file-name-reused-with-other-content"]
     for t in ("quick", "thorough")
 }
 SHRINK = {"quick": False, "thorough": True}
@@ -106,6 +107,8 @@ def cases(draw, tier="quick"):
     base = draw(st.one_of(real(), synthetic()))
     base["chain"] = draw(st.lists(st.sampled_from(["tar", "yaml"]), min_size=1, max_size=3))
     base["pdf"] = pdfs.smooth_params(draw, st)
+    # history: another output was written to and read from the very same file name before
+    base["decoy"] = draw(st.booleans())
     return base
 
 
@@ -118,6 +121,7 @@ def fuzz_cases(draw):
     base = draw(synthetic())
     base["chain"] = draw(st.lists(st.sampled_from(["tar", "yaml"]), min_size=1, max_size=3))
     base["pdf"] = pdfs.smooth_params(draw, st)
+    base["decoy"] = draw(st.booleans())
     return base
 
 
@@ -265,12 +269,33 @@ def check_case(case):
     tmp = tempfile.mkdtemp(prefix="yv_c15_")
     try:
         cur = out0
+        slot = os.path.join(tmp, "slot.tar")
+        if case.get("decoy") and "tar" in case["chain"]:
+            # the file name has a past: a different output went through it (dump, load) before the one under test
+            try:
+                decoy = build_output(case)
+                changed = False
+                for name, val in decoy.items():
+                    if isinstance(val, list) and "_" in name and val and hasattr(val[0], "orders"):
+                        for r in val:
+                            for k in list(r.orders):
+                                a, e = r.orders[k]
+                                r.orders[k] = (np.asarray(a, dtype=float) * -2.0 + 1.0, e)
+                                changed = True
+                        if len(val) >= 2:
+                            val.pop()
+                decoy.dump_tar(slot)
+                Output.load_tar(slot)
+                if changed:
+                    v.label("file-name-reused-with-other-content")
+            except Exception:  # pylint: disable=broad-except
+                v.label("decoy-failed")
         for i, fmt in enumerate(case["chain"]):
             v.label(f"fmt:{fmt}")
             tag = fmt
             try:
                 if fmt == "tar":
-                    path = os.path.join(tmp, f"o{i}.tar")
+                    path = slot if case.get("decoy") else os.path.join(tmp, f"o{i}.tar")
                     cur.dump_tar(path)
                 else:
                     stream = io.StringIO()
